@@ -53,7 +53,7 @@ def handle : List String → String
                        ns := (List.range nn).map (fun i => RR.rr name 2 1 i), extra := ex }
       match reply en (fun m _ => m) false q with
       | none => "drop"
-      | some r => showReply r
+      | some r => if packable r then showReply r else "drop"   -- an extended rcode without OPT cannot be packed
     | _, _, _, _, _, _, _, _, _, _, _, _, _ => "bad-op"
   | _ => "bad-op"
 
